@@ -107,7 +107,7 @@ ClauseNames ==
     "C12_function_of_log", "C12_reads_pure", "C12_history_grows", "C12_readable", "C12_consistent",
     "C14_ref", "C14_epics_flat", "C14_bad_refused", "C14_compact_keeps", "C14_visible",
     "C15_progress", "C15_waits", "C15_claim",
-    "C16_one_value", "C16_truth", "C16_reads", "C16_set_applied",
+    "C16_one_value", "C16_truth", "C16_reads", "C16_set_applied", "C16_rows", "C08_rows",
     "C20_only_grow", "C20_confined", "C20_live_only", "C20_faithful",
     "C01_serial", "C01_no_double", "C01_outcomes", "C01_winner_holds",
     "C02_serial", "C02_wholelines", "C02_nowait", "C02_busy_fast", "C07_final", "C13_reader",
@@ -179,6 +179,8 @@ Eval(n, o) ==
     [] n = "C16_truth" -> P!C16_truth(o)
     [] n = "C16_reads" -> P!C16_reads(o)
     [] n = "C16_set_applied" -> P!C16_set_applied(o)
+    [] n = "C16_rows" -> P!C16_rows(o)
+    [] n = "C08_rows" -> P!C08_rows(o)
     [] n = "C20_only_grow" -> P!C20_only_grow(o)
     [] n = "C20_confined" -> P!C20_confined(o)
     [] n = "C20_live_only" -> P!C20_live_only(o)
